@@ -3,6 +3,15 @@ from harness import core
 
 
 def main():
+    # run the library with its debug logging branches active (records are discarded)
+    import logging
+    logging.getLogger().addHandler(logging.NullHandler())
+    logging.getLogger().setLevel(logging.DEBUG)
+    try:
+        from spacepackets.log import get_lib_logger
+        get_lib_logger().setLevel(logging.DEBUG)
+    except Exception:
+        pass
     ap = argparse.ArgumentParser()
     ap.add_argument("id")
     ap.add_argument("--tier", default=os.environ.get("VERIF_TIER", "quick"), choices=["quick", "thorough"])
